@@ -52,3 +52,10 @@ claim("C14", "proof",
       "no proper prefix of an accepted header decodes successfully; validate/get_format/tostring raise no CBMC check on any structure contents.",
       "pack.c callees are inlined here (their contracts are enforced under C12). strdup_printf is external (stubbed). Accepted check classes as C12.",
       "DESIGN.md 5.C14")
+
+claim("C13", "proof",
+      "CBMC function contracts (goto-instrument --dfcc) on the real rf_wavheader_init / set_num_frames / encode; codec round trip and decode-first reproduction as harness-level postconditions over the real encode/decode",
+      "All (format, channels, rate, frames) tuples within the field widths and all prior structure contents are covered symbolically; the round trip holds for every header of init shape with arbitrary numeric fields; "
+      "the decode-first direction holds for every byte string of every length below 2^31 (content proved at one arbitrary watched index).",
+      "32-bit limit for rate*channels*width read as INT_MAX (API computes in int). pack.c callees inlined (contracts enforced under C12). Accepted check classes as C12.",
+      "DESIGN.md 5.C13")
